@@ -129,11 +129,13 @@ def build(tier, seed, only=None):
     if want('file'):
         # the command-line path: a real file read by SourceCode.from_file.  Exotic separators (form feed, vertical
         # tab, U+2028/2029, NEL, FS..RS) are ordinary characters there; CRLF / CR are line ends.
-        seps = ['\x0c', '\x0b', '\u2028', '\u2029', '\x85', '\x1c', '\x1e', '\r\n', '\r', '\n']
+        seps = ['\x0c', '\x0b', '\u2028', '\u2029', '\x85', '\x1c', '\x1e', '\r\n', '\r', '\n', '\t', '\t\t', ' \t ', '\xa0']
         pieces = []
         for sp in seps:
             pieces += ['x = "a%sb";\ny' % sp, "c = '%s';\nz" % sp, 'p // q%sr\ns' % sp, 'a%sb' % sp if sp in ('\x0c', '\x0b', '\r\n', '\r', '\n') else 'a //%s\nb' % sp,
                        '"u%s' % sp, 'k\n%s\nm' % sp, 'e%s' % sp]
+        # tabs and wide characters in front of tokens (columns of later tokens), inside literals (their bytes), through a file
+        pieces += ['\tint\tx\t=\t1;\t// c\n\t\ty', 'a\t"\t"\tb', "w('\t')\tz", '"é\t世"\tq = 1\t;', '\t\t\tx\n\ty\t\n', 'if\t(\tx\t<=\t1\t)\t{\t}']
         for src in pieces + [p + '\n' for p in pieces[:20]]:
             counts['file'] = counts.get('file', 0) + 1
             main.add('file', R.file_lines_text(src), R.record_file(src))
